@@ -599,4 +599,58 @@ theorem setItemsH_abs (ig : List Val) (c : Nat) : ∀ (its : List (Path × Val))
         (setItemH m c p v ig) (setKVs kvs p v ig) fp1 h1
       exact ⟨fp2, by simpa [setItemsH, build] using h2⟩
 
+/-! ### every pure tree has a tree-shaped representation (`allocTree`): the hypotheses of the
+abstraction theorems are satisfiable for all trees -/
+
+mutual
+  theorem allocTree_Own : ∀ (v : Val) (m : Mem),
+      ∃ fp, Own true (allocTree m v).1.heap v (allocTree m v).2 fp ∧ (∀ x ∈ fp, m.heap.length ≤ x) ∧
+        m.heap.length ≤ (allocTree m v).1.heap.length ∧
+        ∀ x, x < m.heap.length → (allocTree m v).1.heap[x]? = m.heap[x]?
+    | .dict kvs, m => by
+        obtain ⟨fps, hk, hge, hlen, hsame⟩ := allocKVs_Own kvs m
+        have hlt := OwnKVs.lt kvs _ fps hk
+        refine ⟨(allocKVs m kvs).1.heap.length :: fps, ?_, ?_, ?_, ?_⟩
+        · simp only [allocTree, Own, Ref.ptr.injEq]
+          refine ⟨_, (allocKVs m kvs).2, fps, rfl, by simp, rfl, fun _ hm => ?_, ?_⟩
+          · have := hlt _ hm; omega
+          · exact OwnKVs.congr kvs _ fps hk fun x hx => List.getElem?_append_left (hlt x hx)
+        · intro x hx
+          rcases List.mem_cons.1 hx with rfl | hx
+          · exact hlen
+          · exact hge x hx
+        · simp only [allocTree, List.length_append, List.length_singleton]; omega
+        · intro x hx
+          simp only [allocTree]
+          rw [List.getElem?_append_left (by omega)]
+          exact hsame x hx
+    | .cell c, m => ⟨[], by simp [allocTree, Own], by simp, by simp [allocTree], by simp [allocTree]⟩
+    | .list c, m => ⟨[], by simp [allocTree, Own], by simp, by simp [allocTree], by simp [allocTree]⟩
+    | .tuple c, m => ⟨[], by simp [allocTree, Own], by simp, by simp [allocTree], by simp [allocTree]⟩
+  theorem allocKVs_Own : ∀ (kvs : List (String × Val)) (m : Mem),
+      ∃ fp, OwnKVs true (allocKVs m kvs).1.heap kvs (allocKVs m kvs).2 fp ∧ (∀ x ∈ fp, m.heap.length ≤ x) ∧
+        m.heap.length ≤ (allocKVs m kvs).1.heap.length ∧
+        ∀ x, x < m.heap.length → (allocKVs m kvs).1.heap[x]? = m.heap[x]?
+    | [], m => ⟨[], by simp [allocKVs, OwnKVs], by simp, by simp [allocKVs], by simp [allocKVs]⟩
+    | (k, v) :: kvs, m => by
+        obtain ⟨fp1, h1, hge1, hlen1, hsame1⟩ := allocTree_Own v m
+        obtain ⟨fp2, h2, hge2, hlen2, hsame2⟩ := allocKVs_Own kvs (allocTree m v).1
+        have hlt1 := Own.lt v _ fp1 h1
+        refine ⟨fp1 ++ fp2, ?_, ?_, ?_, ?_⟩
+        · simp only [allocKVs, OwnKVs]
+          refine ⟨_, _, fp1, fp2, rfl, rfl, Own.congr v _ fp1 h1 fun x hx => hsame2 x (hlt1 x hx), h2,
+            fun _ x hx hm => ?_⟩
+          have := hlt1 x hx
+          have := hge2 x hm
+          omega
+        · intro x hx
+          rcases List.mem_append.1 hx with hx | hx
+          · exact hge1 x hx
+          · exact Nat.le_trans hlen1 (hge2 x hx)
+        · simp only [allocKVs]; omega
+        · intro x hx
+          simp only [allocKVs]
+          rw [hsame2 x (by omega), hsame1 x hx]
+end
+
 end Pyg.TreeHeap
